@@ -296,7 +296,7 @@ func TestFilter(t *testing.T) {
 		Name: "filter", N: 1500,
 		Rule: "generated PBF files (1..5 blocks, sequential ids in half of the cases so id parity alternates) x all 8 skip-flag combinations x per-type predicate from {none installed, accept-all, reject-all, id parity, hash(id,version) mod 3, tagged, untagged, >=2 children, <2 children} x decoder count; oracle = the model's unfiltered sequence filtered by the same pure predicate in the harness, deep snapshots at receipt vs end of scan, snapshot the filter saw vs object returned, and the multiset of elements shown to the filters vs the model; non-trivial = some rejected element is immediately followed in its block by an accepted element of the same kind with fewer tags/children (where reused memory could leak)",
 		Gen: func(t *rapid.T) Case {
-			f := pbfgen.GenFile(t, pbfgen.Opt{MinBlocks: 1, MaxBlocks: 5, SeqIDs: rapid.Bool().Draw(t, "seq")})
+			f := pbfgen.GenFile(t, pbfgen.Opt{MinBlocks: 1, MaxBlocks: 5, SeqIDs: rapid.Bool().Draw(t, "seq"), Big: rapid.IntRange(0, 3).Draw(t, "big") == 0})
 			return Case{
 				File:          f,
 				Procs:         rapid.SampledFrom([]int{1, 2, 3, 5, 16}).Draw(t, "procs"),
